@@ -277,6 +277,8 @@ def parse_dot(dot, vars_, raw=False):
     """returns (nodes{id: projected string}, edges{id: [(dst,label,arg)]}, init)"""
     nodes = {}; edges = collections.defaultdict(list); init = None
     pats = [(v, re.compile(r'[\\] ' + v + r' = ((?:[^\\]|\\[^n/])*)')) for v in vars_]
+    if raw:   # values may be wrapped over several lines: take everything up to the next conjunct
+        pats = [(v, re.compile(r'/\\\\ ' + v + r' = (.*?)(?=\\n/\\\\ |$)')) for v in vars_]
     with open(dot) as f:
         for line in f:
             m = _edge_re.match(line)
@@ -295,7 +297,7 @@ def parse_dot(dot, vars_, raw=False):
                     if not mm:
                         raise HarnessFailure('variable %s not found in dot node label' % v)
                     if raw:
-                        vals.append(mm.group(1).strip())
+                        vals.append(re.sub(r'\\n\s*', ' ', mm.group(1)).strip())
                     else:
                         vals += re.findall(r'-?\d+|TRUE|FALSE|\\"[^\\]*\\"', mm.group(1))
                 nodes[m.group(1)] = ('\x1f' if raw else ',').join(x.replace('\\"', '') for x in vals)
@@ -621,6 +623,13 @@ def validate_and_report(res, spec_dir, module, cfg, execs, tag, describe, batch=
     group_fn(trace) -> key: when something is rejected, every group is validated on its own so that one failing scenario cannot
     hide another one (one violation is reported per group and signature)."""
     d = dedupe_traces([e for e in execs if e])
+    # which kinds of events the validated executions contained (vacuity: an event kind that never occurs means its clause was never exercised)
+    ec = res.extra.setdefault('event_counts', {})
+    for t in execs:
+        for e in t:
+            k = str(e.get('e', ''))
+            if not k.startswith('#'):
+                ec[k] = ec.get(k, 0) + 1
     n_ok, bad, stats = validate_traces(spec_dir, module, cfg, d, tag, batch=batch)
     res.states += stats['states']; res.transitions += stats['transitions']
     res.extra['distinct_property_traces'] = res.extra.get('distinct_property_traces', 0) + len(d)
